@@ -230,6 +230,9 @@ func Run(cfg Config, root func()) Result {
 		}
 	}
 	cur = nil
+	if s.res.Class == "" && s.hb != nil && s.hb.firstMsg != "" {
+		s.res.Class, s.res.Msg, s.res.Sig = ClassRace, s.hb.firstMsg, s.hb.firstSig
+	}
 	r := s.res
 	r.Tape = s.out
 	r.Hash = s.hash
